@@ -93,7 +93,7 @@ AUDIT_EXTRA = {
     'C10': [('C01Compile', 'Garnish.Props.C01', r'^(C10_|C01_compile_correct$)'), ('C10Compile', 'Garnish.Props.C10', None), ('RuntimeRefineLogic', 'Garnish.Props.RuntimeRefine', r'^C10_'), ('SourceProps', 'Garnish.Props.SourceProps', r'^C10_')],
     'C17': [('C01Compile', 'Garnish.Props.C01', r'^(C17_|C01_compile_correct$|compile_env$)'), ('RuntimeRefineAccess', 'Garnish.Props.RuntimeRefine', r'^C17_'), ('RuntimeRefineApply', 'Garnish.Props.RuntimeRefine', r'^C17_')],
     'C11': [('C11Refine', 'Garnish.Props.C11Refine', None)],
-    'C18': [('C18Lex', 'Garnish.Props.C18Lex', None), ('C18Parse', 'Garnish.Props.C18Parse', None), ('C02Parse', 'Garnish.Props.C02Parse', r'^C18_'), ('C18Text', 'Garnish.Props.C18Text', None), ('C02Support', 'Garnish.Props.C02Support', r'^C18_'), ('C18Text2', 'Garnish.Props.C18Text2', None), ('C18Text3', 'Garnish.Props.C18Text3', None), ('C18Wrap', 'Garnish.Props.C18Wrap', None)],
+    'C18': [('C18Lex', 'Garnish.Props.C18Lex', None), ('C18Parse', 'Garnish.Props.C18Parse', None), ('C02Parse', 'Garnish.Props.C02Parse', r'^C18_'), ('C18Text', 'Garnish.Props.C18Text', None), ('C02Support', 'Garnish.Props.C02Support', r'^C18_'), ('C18Text2', 'Garnish.Props.C18Text2', None), ('C18Text3', 'Garnish.Props.C18Text3', None), ('C18Wrap', 'Garnish.Props.C18Wrap', None), ('C18Text4', 'Garnish.Props.C18Text4', None)],
     'C02': [('C02Parse', 'Garnish.Props.C02Parse', r'^C02_'), ('C02Numbered', 'Garnish.Props.C02Numbered', r'^C02_'), ('C02Frag10', 'Garnish.Props.C02Frag10', None), ('C02Support', 'Garnish.Props.C02Support', r'^(frag9|fragBlocks|refParse_|C02_)'), ('C02Blocks', 'Garnish.Props.C02Blocks', None)],
     'C04': [('C02Parse', 'Garnish.Props.C02Parse', r'^C04_'), ('C04Build', 'Garnish.Props.C04Build', None), ('C04Order', 'Garnish.Props.C04Order', None), ('C04Eval', 'Garnish.Props.C04Order', None), ('C04OrderEx', 'Garnish.Props.C04Order', None), ('C04Source', 'Garnish.Props.C04Source', None), ('SourceProps', 'Garnish.Props.SourceProps', r'^C04_'), ('C04Eval2','Garnish.Props.C04Order',None), ('C04Eval3','Garnish.Props.C04Order',None), ('C04Eval4','Garnish.Props.C04Order',None), ('C04Eval5','Garnish.Props.C04Order',None)],
     'C03': [('C03Lex', 'Garnish.Props.C03Lex', None)],
